@@ -160,6 +160,31 @@ def main():
                 'level_claimed': {'category': 'other', 'text': c['text'], 'design_ref': c['ref']},
                 'level_note': c['note'],
             })
+    # rules added in the second half of the build (DESIGN.md 8.6 round 2, 8.8): appended to the technique of the check that owns them
+    EXTRA = {
+        'C01': 'arity selection evaluated (finite-domain evaluator) over all 16 pin-connectivity patterns',
+        'C02': 'operand-mutation and whole-array-condition rules of the truth-table interpreter',
+        'C03': 'operand-wiring rule of C01 included; interval refinement on any comparison linear in z_cur/z_cap',
+        'C04': 'schedule, memory-map, dataset-selection and lane-control rules of C06-C08 included',
+        'C06': 'dataset selection evaluated for every mode with one/several datasets; absolute lane-control rule; no re-binding of kernel parameters',
+        'C07': 'level partition of the allocation pass evaluated for representative level tables; memory-map rules of C08 included',
+        'C08': 'schedule rules of C07 included',
+        'C09': 'free_index evaluated on all lists up to length 4; C10 elimination/copy/pickle rules included',
+        'C10': 'graph-edit primitive rules of C09 included',
+        'C11': 'bounded-exhaustive comparison of the compiled ignore-terminal with the comment language; per-call transformer construction; C10 resolve/substitute rules included',
+        'C12': 'operand-mutation rule, whole-array-condition (lane independence) rule, aliased call shapes used by LogicSim',
+        'C13': 'explicit accumulation columns resolved through the unpacking of a_ctrl[line]',
+        'C14': 'per-call transformer construction / no module-level parser state',
+        'C16': 'memory-map rules of C08 included',
+        'C17': 's_nodes evaluated on all small node lists; visit-counter width',
+        'C18': 'per-call transformer construction; StilFile methods never store into self',
+        'C19': 'name/body separation of the constructor evaluated on every chunk of the library texts',
+        'C20': 'per-call transformer construction / no module-level parser state',
+    }
+    for c in checks:
+        if c['property_id'] in EXTRA:
+            c['technique'] += '; ' + EXTRA[c['property_id']]
+        c['technique'] += '. Input normalisation: functions whose normal form (semantics-preserving rewrites, kvstatic/canon.py) equals that of the reference copy are analysed in reference form'
     na = []
     for pid in props:
         if pid in CHECKS:
@@ -181,7 +206,7 @@ def main():
         'engines': [
             {'name': 'kvstatic', 'path': '/verif/kvstatic', 'serves_properties': sorted(CHECKS),
              'kind_free_text': 'repository-specific static analysers over python ast: loader/resolver, constant folder, truth-table abstract interpreter, '
-                               'path engine, sibling normaliser, ownership lint, grammar/transformer agreement, table/column agreement'},
+                               'path engine, sibling normaliser, ownership lint, grammar/transformer agreement, table/column agreement, normal-form/equivalence-modulo-refactoring engine, finite-domain evaluator'},
         ],
         'checks': checks,
         'not_applicable': na,
